@@ -821,6 +821,170 @@ def _split_selected_source(stmts: List[ast.stmt], is_inlinable_generator, fn_loa
     return None
 
 
+def _tag_tables(mod) -> Dict[str, Dict[str, Any]]:
+    """tables of the class metadata that are keyed by the wire tag and filled, for every declared number and every wire type of a
+    constant tuple, exactly when the wire type fits the declared type:
+
+        for N, F in <number -> name table>.items():
+            P = <name -> metadata table>[F].proto_type;  R = self.default_gen[F] is list
+            for W in <constant tuple of wire types>:
+                if _wire_type_matches(W, P, R):  T[(N << 3) | W] = F
+        self.ATTR = T
+
+    -> {ATTR: {"wire_types": the tuple}}.  (N << 3) | W is one-to-one on numbers and wire types below 8, so T.get((n << 3) | w)
+    is the name of n when w is one of the tuple and fits, None otherwise."""
+    cached = getattr(mod, "_vt_tag_tables", None)
+    if cached is not None:
+        return cached
+    out: Dict[str, Dict[str, Any]] = {}
+    nodes = mod.defs.get("ProtoClassMetadata.__init__")
+    init = nodes[0] if nodes and isinstance(nodes[0], ast.FunctionDef) else None
+    if init is not None:
+        attr_of_local: Dict[str, Set[str]] = {}
+        for st in ast.walk(init):
+            if isinstance(st, ast.Assign) and len(st.targets) == 1 and isinstance(st.targets[0], ast.Attribute) and isinstance(st.targets[0].value, ast.Name) \
+                    and st.targets[0].value.id == "self" and isinstance(st.value, ast.Name):
+                attr_of_local.setdefault(st.value.id, set()).add(st.targets[0].attr)
+
+        def is_table(e: ast.AST, attr: str) -> bool:
+            return (isinstance(e, ast.Name) and attr in attr_of_local.get(e.id, ())) or (isinstance(e, ast.Attribute) and isinstance(e.value, ast.Name) and e.value.id == "self" and e.attr == attr)
+
+        for outer in init.body:
+            if not (isinstance(outer, ast.For) and isinstance(outer.target, ast.Tuple) and len(outer.target.elts) == 2 and all(isinstance(e, ast.Name) for e in outer.target.elts)
+                    and isinstance(outer.iter, ast.Call) and isinstance(outer.iter.func, ast.Attribute) and outer.iter.func.attr == "items" and not outer.iter.args
+                    and is_table(outer.iter.func.value, "field_name_by_number") and not outer.orelse):
+                continue
+            N_, F_ = outer.target.elts[0].id, outer.target.elts[1].id
+            local: Dict[str, ast.AST] = {}
+            inner = None
+            ok = True
+            for st in outer.body:
+                if isinstance(st, ast.Assign) and len(st.targets) == 1 and isinstance(st.targets[0], ast.Name):
+                    local[st.targets[0].id] = st.value
+                elif isinstance(st, ast.For) and inner is None:
+                    inner = st
+                else:
+                    ok = False
+            if not ok or inner is None or not isinstance(inner.target, ast.Name) or inner.orelse or len(inner.body) != 1:
+                continue
+            W_ = inner.target.id
+            try:
+                from .src import fold as _fold
+                wts = _fold(inner.iter, mod.consts)
+            except Exception:
+                continue
+            if not (isinstance(wts, (tuple, list)) and all(isinstance(w, int) and 0 <= w < 8 for w in wts)):
+                continue
+            cond = inner.body[0]
+            if not (isinstance(cond, ast.If) and not cond.orelse and len(cond.body) == 1 and isinstance(cond.test, ast.Call) and ast.unparse(cond.test.func) == "_wire_type_matches"
+                    and len(cond.test.args) == 3 and not cond.test.keywords):
+                continue
+            a0, a1, a2 = [local.get(a.id, a) if isinstance(a, ast.Name) else a for a in cond.test.args]
+            if not (isinstance(cond.test.args[0], ast.Name) and cond.test.args[0].id == W_):
+                continue
+            if not (isinstance(a1, ast.Attribute) and a1.attr == "proto_type" and isinstance(a1.value, ast.Subscript) and is_table(a1.value.value, "meta_by_field_name")
+                    and isinstance(a1.value.slice, ast.Name) and a1.value.slice.id == F_):
+                continue
+            if not (isinstance(a2, ast.Compare) and len(a2.ops) == 1 and isinstance(a2.ops[0], ast.Is) and ast.unparse(a2.comparators[0]) == "list"
+                    and isinstance(a2.left, ast.Subscript) and is_table(a2.left.value, "default_gen") and isinstance(a2.left.slice, ast.Name) and a2.left.slice.id == F_):
+                continue
+            store = cond.body[0]
+            if not (isinstance(store, ast.Assign) and len(store.targets) == 1 and isinstance(store.targets[0], ast.Subscript) and isinstance(store.targets[0].value, ast.Name)
+                    and isinstance(store.value, ast.Name) and store.value.id == F_ and ast.unparse(store.targets[0].slice) == f"{N_} << 3 | {W_}"):
+                continue
+            T_ = store.targets[0].value.id
+            # T starts empty and nothing else writes it
+            inits = [x for x in ast.walk(init) if isinstance(x, (ast.Assign, ast.AnnAssign)) and isinstance(x.targets[0] if isinstance(x, ast.Assign) else x.target, ast.Name)
+                     and (x.targets[0] if isinstance(x, ast.Assign) else x.target).id == T_]
+            writes = [x for x in ast.walk(init) if isinstance(x, ast.Subscript) and isinstance(x.ctx, (ast.Store, ast.Del)) and isinstance(x.value, ast.Name) and x.value.id == T_]
+            calls = [x for x in ast.walk(init) if isinstance(x, ast.Call) and isinstance(x.func, ast.Attribute) and isinstance(x.func.value, ast.Name) and x.func.value.id == T_]
+            if len(inits) != 1 or not (isinstance(inits[0].value, ast.Dict) and not inits[0].value.keys) or len(writes) != 1 or calls:
+                continue
+            for attr in attr_of_local.get(T_, ()):
+                out[attr] = {"wire_types": tuple(wts)}
+    try:
+        mod._vt_tag_tables = out
+    except Exception:
+        pass
+    return out
+
+
+def tag_lookup_as_two_steps(fn: ast.AST, tables: Dict[str, Dict[str, Any]], load_wire_types=(0, 1, 2, 5)) -> bool:
+    """`X = T.get((R.number << 3) | R.wire_type)` + `if X is None: BODY` (BODY ends the iteration) over a tag table T (see
+    _tag_tables) whose wire types cover what the record readers can yield, rewritten as the two steps the table folds together:
+         X = M.field_name_by_number.get(R.number);  if not X: BODY
+         if not _wire_type_matches(R.wire_type, M.meta_by_field_name[X].proto_type, M.default_gen[X] is list): BODY
+    In place; True when something was rewritten."""
+    changed = False
+    alias: Dict[str, Tuple[ast.AST, str]] = {}      # local -> (metadata expression, attr)
+    for st in ast.walk(fn):
+        if isinstance(st, ast.Assign) and len(st.targets) == 1 and isinstance(st.targets[0], ast.Name) and isinstance(st.value, ast.Attribute) and st.value.attr in tables:
+            alias[st.targets[0].id] = (st.value.value, st.value.attr)
+
+    def table_of(e: ast.AST):
+        if isinstance(e, ast.Name) and e.id in alias:
+            return alias[e.id]
+        if isinstance(e, ast.Attribute) and e.attr in tables:
+            return (e.value, e.attr)
+        return None
+
+    def visit(block: List[ast.stmt]) -> None:
+        nonlocal changed
+        i = 0
+        while i + 1 < len(block):
+            st, nx = block[i], block[i + 1]
+            hit = None
+            if isinstance(st, ast.Assign) and len(st.targets) == 1 and isinstance(st.targets[0], ast.Name) and isinstance(st.value, ast.Call) and isinstance(st.value.func, ast.Attribute) \
+                    and st.value.func.attr == "get" and len(st.value.args) == 1 and not st.value.keywords:
+                tb = table_of(st.value.func.value)
+                key = st.value.args[0]
+                if tb is not None and isinstance(key, ast.BinOp) and isinstance(key.op, ast.BitOr) and isinstance(key.left, ast.BinOp) and isinstance(key.left.op, ast.LShift) \
+                        and isinstance(key.left.right, ast.Constant) and key.left.right.value == 3 and isinstance(key.left.left, ast.Attribute) and key.left.left.attr == "number" \
+                        and isinstance(key.right, ast.Attribute) and key.right.attr == "wire_type" and ast.unparse(key.left.left.value) == ast.unparse(key.right.value) \
+                        and set(load_wire_types) <= set(tables[tb[1]]["wire_types"]):
+                    x = st.targets[0].id
+                    if isinstance(nx, ast.If) and not nx.orelse and ast.unparse(nx.test) in (f"{x} is None", f"not {x}") and _terminates(nx.body):
+                        hit = (tb[0], key.left.left.value, x, nx)
+            if hit is not None:
+                meta_e, rec, x, nx = hit
+                src = (f"{x} = M.field_name_by_number.get(R.number)\n"
+                       f"if not {x}:\n    pass\n"
+                       f"if not _wire_type_matches(R.wire_type, M.meta_by_field_name[{x}].proto_type, M.default_gen[{x}] is list):\n    pass\n")
+                new = ast.parse(src).body
+
+                class Sub(ast.NodeTransformer):
+                    def visit_Name(self, n):
+                        if n.id == "M":
+                            return copy.deepcopy(meta_e)
+                        if n.id == "R":
+                            return copy.deepcopy(rec)
+                        return n
+                new = [Sub().visit(n_) for n_ in new]
+                new[1].body = copy.deepcopy(nx.body)
+                new[2].body = copy.deepcopy(nx.body)
+                for n_ in new:
+                    ast.copy_location(n_, st)
+                    ast.fix_missing_locations(n_)
+                block[i:i + 2] = new
+                changed = True
+                i += 3
+                continue
+            for fld in ("body", "orelse", "finalbody"):
+                sub = getattr(st, fld, None)
+                if isinstance(sub, list) and sub and isinstance(sub[0], ast.stmt) and not isinstance(st, (ast.FunctionDef, ast.AsyncFunctionDef, ast.ClassDef)):
+                    visit(sub)
+            i += 1
+        if block:
+            st = block[-1]
+            for fld in ("body", "orelse", "finalbody"):
+                sub = getattr(st, fld, None)
+                if isinstance(sub, list) and sub and isinstance(sub[0], ast.stmt) and not isinstance(st, (ast.FunctionDef, ast.AsyncFunctionDef, ast.ClassDef)):
+                    visit(sub)
+
+    visit(fn.body)
+    return changed
+
+
 def _thin_generators(mod) -> Dict[str, Tuple[str, List[str]]]:
     """single-record readers R that a generator G of the module wraps one to one:
     `def G(a, b): while True: v = R(a, b); if v is None: return; yield v`  ->  {R: (G, [a, b])}.
@@ -1315,6 +1479,13 @@ class Expander:
                 isinstance(n_, ast.Assign) and len(n_.targets) == 1 and isinstance(n_.targets[0], ast.Tuple) and len(n_.targets[0].elts) == 4 and isinstance(n_.value, ast.Name) for n_ in ast.walk(fn)):
             cp = copy.deepcopy(fn)
             if normalise_records(cp, self.mod):
+                cp._vt_qual = qual
+                cp._vt_origin = getattr(fn, "_vt_origin", fn)
+                fn = result = cp
+        tagt = _tag_tables(self.mod)
+        if tagt and any(isinstance(n_, ast.Attribute) and n_.attr in tagt for n_ in ast.walk(fn)):
+            cp = copy.deepcopy(fn)
+            if tag_lookup_as_two_steps(cp, tagt):
                 cp._vt_qual = qual
                 cp._vt_origin = getattr(fn, "_vt_origin", fn)
                 fn = result = cp
